@@ -135,6 +135,15 @@ func (s *SweepingProvider) batchProvide(prefix bitstr.Key, keys []mh.Multihash)
   ghost at before call(DequeueMatching): assert($arg0 == $cov)
   ghost at before call(failedProvide): assert($arg0 == prefix && $arg1 == keys)
   ghost at before call(AssignKeysToRegions): $assigned = $arg1; assert(len($arg1) >= len(old(keys)) && all(i, 0, len(old(keys)), $arg1[i] == old(keys)[i]))
+  # custody of the keys taken off the provide queue: they are gone from the
+  # queue, so they must be part of what is assigned to regions (and sent)
+  ghostvar $extra []mh.Multihash = nil
+  ghostvar $deq bool = false
+  ghost at call(DequeueMatching): $extra = $ret0; $deq = true
+  ghost at before call(AssignKeysToRegions): assert($deq && len($arg1) == len(old(keys)) + len($extra) && all(i, 0, len($extra), $arg1[len(old(keys)) + i] == $extra[i]) && $arg0 == regions)
+  ghost at call(exploreSwarm): $expl = $ret0
+  ghostvar $expl []keyspace.Region = nil
+  ghost at before call(AssignKeysToRegions): assert($arg0 == $expl)
   ghost at call(AssignKeysToRegions): $regions = $ret0
   ghost at before call(provideRegions): assert($arg0 == $regions && $arg1 == $ai && !$arg2)
   ghost at before call(individualProvide): assert($arg0 == prefix && $arg1 == keys && !$arg2)
